@@ -320,6 +320,121 @@ def convert_roundtrip(ctx, kind, deg, mult):
     ctx.check_eq_vec('to_bspline.evaluates_identically', _at(kind, b2, prm), want)
 
 
+def _ops_instances(tier):
+    out = []
+    for warm in (True, False):
+        out += [dict(kind='curve', deg=[2], mult=[[1]], op='reverse', warm=warm),
+                dict(kind='curve', deg=[2], mult=[[1]], op='insert_knot', warm=warm),
+                dict(kind='surface', deg=[1, 2], mult=[[], [1]], op='transpose', warm=warm),
+                dict(kind='surface', deg=[1, 2], mult=[[], [1]], op='flip', warm=warm),
+                dict(kind='surface', deg=[2, 1], mult=[[], []], op='insert_knot', warm=warm)]
+    out += [dict(o, first='W') for o in out if o['warm']]
+    out += [dict(kind='curve', deg=[2], mult=[[1]], op='remove_knot', warm=True),
+            dict(kind='curve', deg=[1], mult=[[1]], op='translate', warm=True),
+            dict(kind='volume', deg=[1, 1, 1], mult=[[], [], []], op='insert_knot', warm=True),
+            dict(kind='volume', deg=[1, 1, 1], mult=[[], [], []], op='scale', warm=True)]
+    return out
+
+
+@scenario('C09', fns=['NURBS.Curve.ctrlpts', 'NURBS.Curve.weights', 'NURBS.Curve.ctrlptsw', 'NURBS.Curve.reset',
+                      'abstract.Curve.reverse', 'operations.transpose', 'operations.flip', 'operations.insert_knot',
+                      'operations.remove_knot', 'operations.translate', 'operations.scale'],
+          quick=lambda: _ops_instances('quick'))
+def views_after_operation(ctx, kind, deg, mult, op, warm, first='P'):
+    """requires: a rational shape with positive symbolic weights; warm = all three views were read before the operation
+       ensures : after any shape-editing operation (not only the setters) the three views as read satisfy
+                 ctrlptsw[i] == (ctrlpts[i] * weights[i], weights[i]), and a following ctrlpts / weights round trip
+                 (obj.weights = obj.weights; obj.ctrlpts = obj.ctrlpts) changes neither the views nor the evaluated point"""
+    obj, kvs, sizes, P, W, prm = _build(ctx, kind, deg, mult, rational=True)
+    ops = ctx.geomdl('operations')
+    if warm:
+        _ = (_copy2(obj.ctrlpts), list(obj.weights), _copy2(obj.ctrlptsw))
+    half = ctx.lit(Fraction(1, 2))
+    third = ctx.lit(Fraction(1, 3))
+    if op == 'reverse':
+        obj.reverse()
+    elif op == 'transpose':
+        ops.transpose(obj, inplace=True)
+    elif op == 'flip':
+        ops.flip(obj, inplace=True)
+    elif op == 'insert_knot':
+        if kind == 'curve':
+            obj.insert_knot(third)
+        elif kind == 'surface':
+            obj.insert_knot(u=third)
+        else:
+            obj.insert_knot(w=third)
+    elif op == 'remove_knot':
+        obj.insert_knot(third)
+        if warm:
+            _ = (_copy2(obj.ctrlpts), list(obj.weights))
+        obj.remove_knot(third)
+    elif op == 'translate':
+        ops.translate(obj, [ctx.num('t0'), ctx.num('t1')], inplace=True)
+    elif op == 'scale':
+        ops.scale(obj, ctx.lit(Fraction(3, 2)), inplace=True)
+    if first == 'W':          # the order in which the lazily filled views are read after the operation matters
+        got_w = list(obj.weights)
+        got_p, got_pw = _copy2(obj.ctrlpts), _copy2(obj.ctrlptsw)
+    else:
+        got_p, got_w, got_pw = _copy2(obj.ctrlpts), list(obj.weights), _copy2(obj.ctrlptsw)
+    ctx.check_true('after.sizes', len(got_p) == len(got_w) == len(got_pw))
+    ctx.check_eq_grid('after.relation:ctrlptsw=(ctrlpts*w,w)', got_pw, [[c * w for c in p] + [w] for p, w in zip(got_p, got_w)])
+    ctx.assume_pos(_spec_point(kind, deg, kvs, sizes, [[w] for w in W], prm)[0], 'L.weight_function_positive')
+    if op in ('reverse', 'transpose', 'flip', 'translate', 'scale'):
+        pt_before = None
+    at = [half] * len(deg)
+    e0 = list(_at(kind, obj, at)) if op not in ('insert_knot', 'remove_knot') else None
+    # setting a view to what was just read must be the identity
+    obj.weights = list(obj.weights)
+    obj.ctrlpts = _copy2(obj.ctrlpts)
+    ctx.check_eq_grid('roundtrip.ctrlptsw_unchanged', obj.ctrlptsw, got_pw)
+    ctx.check_eq_vec('roundtrip.weights_unchanged', obj.weights, got_w)
+    if e0 is not None:
+        ctx.check_eq_vec('roundtrip.point_unchanged', _at(kind, obj, at), e0)
+
+
+def _general_weights(tier):
+    out = []
+    for kind, deg, mult in (('curve', [2], [[]]), ('curve', [1], [[1]]), ('surface', [1, 1], [[], []])):
+        for pattern in ('unit', 'mixed', 'first', 'last', 'none'):
+            out.append(dict(kind=kind, deg=deg, mult=mult, pattern=pattern))
+    return out
+
+
+@scenario('C09', fns=['convert.nurbs_to_bspline', '_convert.convert_curve', '_convert.convert_surface'],
+          quick=lambda: _general_weights('quick'))
+def to_bspline_general(ctx, kind, deg, mult, pattern):
+    """requires: a rational shape whose weights are 1 except at the positions given by `pattern`
+                 (unit: all 1; mixed: every second one is 3/4; first / last: only that one is 2; none: all are 5/4)
+       ensures : whatever nurbs_to_bspline returns evaluates identically to the input ("converting ... back gives an
+                 identically evaluating shape"); a non-rational result is only possible when every weight is 1"""
+    obj, kvs, sizes, P, _W, prm = _build(ctx, kind, deg, mult, rational=False)
+    n = len(P)
+    W = []
+    for i in range(n):
+        w = Fraction(1)
+        if pattern == 'mixed' and i % 2 == 1:
+            w = Fraction(3, 4)
+        elif pattern == 'first' and i == 0:
+            w = Fraction(2)
+        elif pattern == 'last' and i == n - 1:
+            w = Fraction(2)
+        elif pattern == 'none':
+            w = Fraction(5, 4)
+        W.append(ctx.lit(w))
+    if kind == 'curve':
+        r = shapes.build_curve(ctx, deg[0], kvs[0], P, W)
+    else:
+        r = shapes.build_surface(ctx, deg[0], deg[1], kvs[0], kvs[1], P, sizes[0], sizes[1], W)
+    want = spec.project(_spec_point(kind, deg, kvs, sizes, shapes.homog(P, W), prm))
+    ctx.check_eq_vec('input.evaluates_to_spec', _at(kind, r, prm), want)
+    out = ctx.geomdl('convert').nurbs_to_bspline(r)
+    ctx.check_eq_vec('result.evaluates_identically', _at(kind, out, prm), want)
+    ctx.check_true('nonrational_result_only_for_unit_weights', out.rational or pattern == 'unit')
+    ctx.check_true('unit_weights_are_converted', (not out.rational) or pattern != 'unit')
+
+
 def _scale_shapes(tier):
     out = [dict(kind='curve', deg=[2], mult=[[1]]), dict(kind='curve', deg=[1], mult=[[1]]),
            dict(kind='surface', deg=[1, 2], mult=[[], []]), dict(kind='volume', deg=[1, 1, 1], mult=[[], [], []])]
